@@ -349,8 +349,8 @@ def run(ctx):
     # "each preceded by up to 100 empty reads" is an allowance per reply line, not per port: a
     # long session on one port against a board that is a little slow every time
     from .c06 import slow_session          # pylint: disable=import-outside-toplevel
-    for stall in (1, 2):
-        for length in (60, 140):
+    for stall in (1, 2, 3):
+        for length in ((60, 140) if stall < 3 else (9,)):
             for msg in slow_session("legacy", stall, length):
                 part.violation(f"slow_session:legacy:{stall}:{length}", msg,
                                {"kind": "slow_session", "layer": "legacy", "stall": stall,
